@@ -318,6 +318,8 @@ type c16Sel struct {
 	Matchers []*labels.Matcher `json:"-"`
 	Disabled bool              `json:"disabled"`
 	Snoozed  bool              `json:"snoozed"`
+	MinAgeMs int64             `json:"min_age_ms"`
+	Ignored  []string          `json:"label_values_ignored,omitempty"`
 }
 
 type c16Case struct {
@@ -433,8 +435,17 @@ func c16GenDB(r *rand.Rand, t0, lb int64, classes *[]string, withUp bool) c16DB 
 	var db c16DB
 	hour := 60 * c16Minute
 	if withUp {
-		db.Series = append(db.Series, c16Series{Labels: map[string]string{"__name__": "up", "job": "a"},
-			Runs: [][2]int64{{c16Snap(t0 - lb - 5*hour), c16Snap(t0 + hour)}}})
+		runs := [][2]int64{{c16Snap(t0 - lb - 5*hour), c16Snap(t0 + hour)}}
+		if r.Intn(5) == 0 {
+			// the server itself was down for a while: a hole in the uptime baseline
+			a := c16Snap(t0 - 40*c16Minute - r.Int63n((lb-80*c16Minute)/(7*c16Minute)+1)*7*c16Minute)
+			runs = [][2]int64{{runs[0][0], a}, {a + (20+int64(r.Intn(60)))*c16Minute, runs[0][1]}}
+			if runs[1][0] > c16Snap(t0-35*c16Minute) {
+				runs[1][0] = c16Snap(t0 - 35*c16Minute)
+			}
+			*classes = append(*classes, "uptime-with-hole")
+		}
+		db.Series = append(db.Series, c16Series{Labels: map[string]string{"__name__": "up", "job": "a"}, Runs: runs})
 	}
 	for _, m := range c16Metrics {
 		n := 1 + r.Intn(3)
@@ -571,11 +582,11 @@ func c16GenCase(r *rand.Rand, id int, t0 int64) *c16Case {
 		if r.Intn(2) == 0 {
 			c.Recording = append(c.Recording, n)
 			fmt.Fprintf(w, "  - record: %s\n    expr: sum(up) by (job)\n", n)
-			c.classes = append(c.classes, "rule-set:recording/"+c16NameKind(n))
+			c.classes = append(c.classes, "rule-set=recording/"+c16NameKind(n))
 		} else {
 			c.Alerting = append(c.Alerting, n)
 			fmt.Fprintf(w, "  - alert: %s\n    expr: up == 0\n", n)
-			c.classes = append(c.classes, "rule-set:alerting/"+c16NameKind(n))
+			c.classes = append(c.classes, "rule-set=alerting/"+c16NameKind(n))
 		}
 	}
 	switch r.Intn(8) {
@@ -589,6 +600,15 @@ func c16GenCase(r *rand.Rand, id int, t0 int64) *c16Case {
 		c.SnoozedNames = append(c.SnoozedNames, n)
 		fmt.Fprintf(&b, "  # pint snooze 2099-01-01T00:00:00Z promql/series(%s)\n", n)
 		c.classes = append(c.classes, "snooze-comment")
+	case 2:
+		fmt.Fprintf(&b, "  # pint rule/set promql/series min-age %s\n", pick(r, []string{"5m", "20m", "1h", "5h", "2d"}))
+		c.classes = append(c.classes, "min-age-comment")
+	case 3:
+		fmt.Fprintf(&b, "  # pint rule/set promql/series(%s) min-age %s\n", pick(r, c16Metrics), pick(r, []string{"5m", "20m", "5h"}))
+		c.classes = append(c.classes, "min-age-comment(selector)")
+	case 4:
+		fmt.Fprintf(&b, "  # pint rule/set promql/series ignore/label-value %s\n", pick(r, []string{"job", "env"}))
+		c.classes = append(c.classes, "ignore/label-value-comment")
 	}
 	if r.Intn(2) == 0 {
 		fmt.Fprintf(&b, "  - alert: test\n    expr: '%s'\n", c.Expr)
@@ -694,10 +714,27 @@ func c16Ptrs(dbs []c16DB) []*c16DB {
 func c16Run(c *c16Case) {
 	for {
 		c16RunOnce(c)
-		if (c.Now-5)/c16Minute == (c.After+5)/c16Minute || c.Attempts >= 5 {
+		if !c16Critical(c) || c.Attempts >= 5 {
 			return
 		}
 	}
+}
+
+// c16Critical: the wall clock crossed hh:mm:00.000 or hh:mm:59.000 during the case.  All evaluation grids, slice
+// boundaries and designed presence edges sit on whole or half minutes and every range pint derives ends at
+// hh:mm:59.000, so between two such instants no comparison pint makes can depend on the exact clock reading.
+func c16Critical(c *c16Case) bool {
+	a, b := c.Now-5, c.After+5
+	return a/c16Minute != b/c16Minute || (a+1000)/c16Minute != (b+1000)/c16Minute
+}
+
+func contains(l []string, x string) bool {
+	for _, y := range l {
+		if y == x {
+			return true
+		}
+	}
+	return false
 }
 
 func c16RunOnce(c *c16Case) {
@@ -765,8 +802,16 @@ func c16RunOnce(c *c16Case) {
 	sels := checks.VerifNonFallbackSelectors(expr)
 	for _, s := range sels {
 		bare := checks.VerifStripLabels(s)
+		minAge, _ := checks.VerifMinAge(target.Rule, s)
+		var ign []string
+		for _, lm := range s.LabelMatchers {
+			if checks.VerifLabelValueIgnored(settings, target.Rule, s, lm.Name) && !contains(ign, lm.Name) {
+				ign = append(ign, lm.Name)
+			}
+		}
 		c.Checked = append(c.Checked, c16Sel{Str: s.String(), Bare: bare.String(), Name: s.Name, Matchers: s.LabelMatchers,
-			Disabled: checks.VerifIsDisabled(target.Rule, s), Snoozed: checks.VerifIsSnoozed(target.Rule, s)})
+			Disabled: checks.VerifIsDisabled(target.Rule, s), Snoozed: checks.VerifIsSnoozed(target.Rule, s),
+			MinAgeMs: minAge.Milliseconds(), Ignored: ign})
 	}
 
 	now := time.Now()
@@ -781,7 +826,10 @@ func c16RunOnce(c *c16Case) {
 		if c.Range[i].Query != c.Range[j].Query {
 			return c.Range[i].Query < c.Range[j].Query
 		}
-		return c.Range[i].StartMs < c.Range[j].StartMs
+		if c.Range[i].StartMs != c.Range[j].StartMs {
+			return c.Range[i].StartMs < c.Range[j].StartMs
+		}
+		return c.Range[i].EndMs < c.Range[j].EndMs
 	})
 
 	// every vector selector of the expression, from the Prometheus parser (independent of pint's analysis)
@@ -840,9 +888,10 @@ func c16RunOnce(c *c16Case) {
 func c16Oracle(c *c16Case, astSels []*promParser.VectorSelector) {
 	lb := c16ParseDur(c.LookbackRange)
 	hour := 60 * c16Minute
+	// "an instant query for the selector currently returns series": at every instant of the case (before and after Check)
 	visibleNow := func(db *c16DB, ms []*labels.Matcher) bool {
 		for _, s := range db.Series {
-			if c16Match(ms, labels.FromMap(s.Labels)) && s.visibleAt(c.Now) {
+			if c16Match(ms, labels.FromMap(s.Labels)) && s.visibleAt(c.Now) && s.visibleAt(c.After) {
 				return true
 			}
 		}
@@ -1000,7 +1049,7 @@ func c16CoqDB(db *c16DB) string {
 
 func c16Coq(c *c16Case) string {
 	// regexp oracle table
-	pats := map[string]bool{}
+	pats := map[string]bool{".+": true} // step 3 asks for absent(metric{label=~".+"})
 	var allMs [][]*labels.Matcher
 	for _, s := range c.Checked {
 		allMs = append(allMs, s.Matchers)
@@ -1042,8 +1091,12 @@ func c16Coq(c *c16Case) string {
 				ignored = append(ignored, coqStr(s.Bare))
 			}
 		}
-		sels = append(sels, fmt.Sprintf("(mkSel %s %s %s %s %s %s)", coqStr(s.Str), coqStr(s.Bare), coqStr(s.Name),
-			c16CoqMatchers(s.Matchers), coqBool(s.Disabled), coqBool(s.Snoozed)))
+		ign := make([]string, len(s.Ignored))
+		for i, n := range s.Ignored {
+			ign[i] = coqStr(n)
+		}
+		sels = append(sels, fmt.Sprintf("(mkSel %s %s %s %s %s %s %s %s)", coqStr(s.Str), coqStr(s.Bare), coqStr(s.Name),
+			c16CoqMatchers(s.Matchers), coqBool(s.Disabled), coqBool(s.Snoozed), coqZ(s.MinAgeMs*1_000_000), coqList(ign)))
 	}
 	var rules []string
 	for _, n := range c.Recording {
@@ -1069,10 +1122,46 @@ func c16Coq(c *c16Case) string {
 		obs = append(obs, coqPair(coqStr(c.Problems[i].Selector), coqList(ps)))
 		i = j
 	}
-	st := fmt.Sprintf("(mkSet %s %s %s %s)", coqZ(c16ParseDur(c.LookbackRange)*1_000_000), coqZ(c16ParseDur(c.LookbackStep)*1_000_000),
-		coqList(ignored), coqList(elsewhere))
-	return fmt.Sprintf("{| c_id := %s; c_db := %s; c_others := %s; c_now := %s; c_settings := %s; c_rules := %s; c_sels := %s; c_re := %s; c_observed := %s |}",
-		coqN(c.ID), c16CoqDB(&c.DB), coqList(others), coqZ(c.Now*1_000_000), st, coqList(rules), coqList(sels), coqList(table), coqList(obs))
+	// requests seen by the main server
+	var inst []string
+	for _, ir := range c.Instant {
+		if ir.TimeMs == nil {
+			inst = append(inst, coqPair("None", coqZ(ir.AtMs*1_000_000)))
+		} else {
+			inst = append(inst, coqPair("(Some "+coqZ(*ir.TimeMs*1_000_000)+")", coqZ(ir.AtMs*1_000_000)))
+		}
+	}
+	var rng []string
+	for i := 0; i < len(c.Range); {
+		j := i
+		var rs []c16RangeReq
+		for j < len(c.Range) && c.Range[j].Query == c.Range[i].Query {
+			rq := c.Range[j]
+			switch {
+			case len(rs) > 0 && rs[len(rs)-1] == rq: // the same slice asked again (cache miss): one entry
+			default:
+				rs = append(rs, rq)
+			}
+			j++
+		}
+		// the last slice ends at "now": asked again later it has a later end; keep the latest
+		for len(rs) >= 2 && rs[len(rs)-1].StartMs == rs[len(rs)-2].StartMs && rs[len(rs)-1].StepMs == rs[len(rs)-2].StepMs {
+			if rs[len(rs)-2].EndMs > rs[len(rs)-1].EndMs {
+				rs[len(rs)-1] = rs[len(rs)-2]
+			}
+			rs = append(rs[:len(rs)-2], rs[len(rs)-1])
+		}
+		var ts []string
+		for _, rq := range rs {
+			ts = append(ts, fmt.Sprintf("(%s, %s, %s)", coqZ(rq.StartMs*1_000_000), coqZ(rq.EndMs*1_000_000), coqZ(rq.StepMs*1_000_000)))
+		}
+		rng = append(rng, coqPair(coqStr(c.Range[i].Query), coqList(ts)))
+		i = j
+	}
+	st := fmt.Sprintf("(mkSet %s %s %s %s %s)", coqZ(c16ParseDur(c.LookbackRange)*1_000_000), coqZ(c16ParseDur(c.LookbackStep)*1_000_000),
+		coqList(ignored), coqList(elsewhere), coqStr("up"))
+	return fmt.Sprintf("{| c_id := %s; c_db := %s; c_others := %s; c_now := %s; c_after := %s; c_instant := %s; c_range := %s; c_settings := %s; c_rules := %s; c_sels := %s; c_re := %s; c_observed := %s |}",
+		coqN(c.ID), c16CoqDB(&c.DB), coqList(others), coqZ(c.Now*1_000_000), coqZ(c.After*1_000_000), coqList(inst), coqList(rng), st, coqList(rules), coqList(sels), coqList(table), coqList(obs))
 }
 
 // ---------------------------------------------------------------------------------------------
@@ -1104,6 +1193,20 @@ func runC16(args []string) int {
 	keep := n <= 400
 	for _, c := range cases {
 		rep.hist("shape=" + c.Shape)
+		if c.Attempts > 1 {
+			rep.hist("rerun-after-minute-crossing")
+		}
+		if c16Critical(c) {
+			rep.hist("dropped-minute-crossing")
+			continue
+		}
+		tp := false
+		for _, ir := range c.Instant {
+			if ir.TimeMs != nil {
+				tp = true
+			}
+		}
+		rep.hist(fmt.Sprintf("instant-requests-with-time-param=%v", tp))
 		rep.hist("lookback=" + c.LookbackRange + "/" + c.LookbackStep)
 		for _, cl := range c.classes {
 			if i := strings.Index(cl, ":"); i >= 0 {
